@@ -191,8 +191,8 @@ def forced_history(ctx, _state={"i": 0}):
         "mkdir - %s" % hexs(b"kd")]
     kd = hexs(b"kd")
     if flav & 4:
-        # 16-byte names: 42-byte records, 11 per cache block: with 11 entries the block of kd is full, the next record needs a new block
-        for k in range(11 if "grows" in kind else 9):
+        # 14-byte names: 40-byte records, 12 per 488-byte record area: with 12 entries the block of kd is full, the next record needs a new block
+        for k in range(12 if "grows" in kind else 9):
             L += ["mkdir %s %s" % (kd, hexs(b"e%02d_sixteen_ch" % k))]
     L += ["free", "dump $W/img1", "spectree"]
     if kind == "append-across-72":
